@@ -497,6 +497,47 @@ def r6_debug_observation_only(ctx):
         ctx.check(not bad, q + "#readonly", "stores nothing on self" if not bad else f"to_xarray mutates its object: {norm(bad[0])[:80]}", where=fn, node=bad[0] if bad else fn.node)
 
 
+    # the properties those snapshots read must be observations too: a getter that memoises (stores
+    # anything but the reviewed recomputation) makes the result depend on WHEN the snapshot was taken
+    from sa.paths import enumerate_paths
+
+    REVIEWED_GETTER_STORES = {("pyxel.data_structure.charge:Charge", "array"): {"self._array"}}
+    n_get = 0
+    for cq in ("pyxel.data_structure.array:ArrayBase", "pyxel.data_structure.photon:Photon", "pyxel.data_structure.charge:Charge"):
+        ci = ctx.cls(cq)
+        tx = ci.methods.get("to_xarray")
+        if tx is None:
+            continue
+        read = {n.attr for n in ast.walk(tx.node) if isinstance(n, ast.Attribute) and isinstance(n.value, ast.Name) and n.value.id == "self"}
+        for name in sorted(read):
+            gt = ci.getters.get(name)
+            if gt is None:
+                continue
+            n_get += 1
+            allowed = REVIEWED_GETTER_STORES.get((cq, name), set())
+            bad = []
+            for s_, t in stores(gt.node, lambda t: isinstance(t, (ast.Attribute, ast.Subscript))):
+                base = t
+                while isinstance(base, (ast.Attribute, ast.Subscript)):
+                    base = base.value
+                if isinstance(base, ast.Name) and base.id == "self" and (dotted(t) or norm(t)) not in allowed:
+                    bad.append(s_)
+            ctx.check(not bad, f"{gt.qual}#observation", "the getter read by the snapshot keeps no memo" if not bad else f"the getter read by the debug snapshot stores {norm(bad[0])[:70]}: what later reads return depends on whether a snapshot was taken", where=gt, node=bad[0] if bad else gt.node)
+            if allowed and not bad:
+                # the reviewed recomputation happens whenever there are clusters - not only the first time
+                for q_ in enumerate_paths(gt.node.body):
+                    if q_.exit not in ("fall", "return"):
+                        continue
+                    st_ = q_.stores("self._array")
+                    extra = [(t_, p_) for t_, p_ in q_.cond_texts() if t_ != "self._frame.empty"]
+                    if not st_ and extra:
+                        ctx.fail(f"{gt.qual}#always-recomputed", f"the cluster table is not converted again when {extra} (stale pixels after an in-place change of the table)", where=gt, node=q_.exit_node or gt.node)
+                        break
+                else:
+                    ctx.ok(f"{gt.qual}#always-recomputed", "the conversion runs whenever the cluster table is not empty", where=gt, node=gt.node)
+    ctx.floor(n_get, 3)
+
+
 def _locals_defined_in(block: ast.AST) -> set[str]:
     out = set()
     for n in walk_ordered(block):
